@@ -1,4 +1,5 @@
 import KrakenModel.Model.MetaInfo
+import KrakenModel.Model.MetaInfoGen
 import KrakenModel.Model.RefreshPL
 import KrakenModel.Proof.C02
 /-
@@ -352,5 +353,46 @@ example : refreshPL [⟨0, 4⟩, ⟨50, 32⟩] 3 100 = .ok 32 ∧ refreshPL [⟨
     refreshPL [⟨0, 4⟩, ⟨50, 32⟩] 100 3 = .ok 4 := by decide
 
 end refresh
+
+/-! ### Generate on a store that already holds a metainfo sidecar -/
+
+section generate_existing
+open KrakenModel.MetaInfoGen
+
+/-- **C02 Generate overwrites**: whatever sidecar the store holds for the blob beforehand (`old` is arbitrary: metainfo
+generated under another piece-length table, written directly, garbage, or nothing), a successful `Generate` leaves the
+serialisation of the metainfo that describes the blob with the piece length the CURRENT table selects for its size. -/
+theorem generate_overwrites_any_sidecar (crc : Bytes → Nat) (sha1 : List Char → Nat) (t : List Range) (d : List Char)
+    (data : Bytes) (old : Option (List Char)) (pl : Int) (hget : MetaInfo.get t data.length = .ok pl) (hpl : 0 < pl) :
+    ∃ mi : KrakenModel.MetaInfo.MetaInfo, generate sha1 crc t d data old = (.ok, some (serializeInfo mi.info)) ∧
+      mi.info.pieceLength = pl ∧ mi.info.length = data.length ∧ mi.info.name = d ∧
+      mi.info.sums = (chunks pl.toNat data).map crc := by
+  obtain ⟨mi, h1, _, hlen, hp, hn, _, hs, _⟩ := metainfo_describes_blob crc sha1 d data pl hpl
+  exact ⟨mi, by simp [generate, hget, h1], hp, hlen, hn, hs⟩
+
+/-- … and reading that sidecar back yields exactly that metainfo (same info hash, digest, layout): the end-to-end
+round trip of `Generate` for an arbitrary pre-existing sidecar. -/
+theorem generate_roundtrip_any_sidecar (crc : Bytes → Nat) (sha1 : List Char → Nat) (t : List Range) (d : List Char)
+    (data : Bytes) (old : Option (List Char)) (pl : Int) (hget : MetaInfo.get t data.length = .ok pl) (hpl : 0 < pl)
+    (hpl63 : pl < 2^63) (hlen : data.length < 2^63) (hd : validSHA256Hex d = true) (hcrc : ∀ b, crc b < 2^32) :
+    ∃ (mi : KrakenModel.MetaInfo.MetaInfo) (ser : List Char), generate sha1 crc t d data old = (.ok, some ser) ∧ deserialize sha1 ser = .ok mi ∧
+      mi.info.pieceLength = pl ∧ mi.info.length = data.length ∧ mi.digest = d ∧
+      mi.info.sums = (chunks pl.toNat data).map crc := by
+  obtain ⟨mi, h1, _, hl, hp, _, hdg, hs, _⟩ := metainfo_describes_blob crc sha1 d data pl hpl
+  refine ⟨mi, serializeInfo mi.info, by simp [generate, hget, h1], ?_, hp, hl, hdg, hs⟩
+  exact generate_roundtrip crc sha1 d data pl hpl hpl63 hlen hd hcrc mi h1
+
+/-- the sidecar that was there does not influence the result -/
+theorem generate_ignores_old (crc : Bytes → Nat) (sha1 : List Char → Nat) (t : List Range) (d : List Char) (data : Bytes)
+    (old old' : Option (List Char)) (h : (generate sha1 crc t d data old).1 = .ok) :
+    generate sha1 crc t d data old = generate sha1 crc t d data old' := by
+  unfold generate at h ⊢
+  split <;> simp_all
+  split <;> simp_all
+
+example : generate (fun _ => 0) List.sum [⟨0, 10⟩, ⟨20, 25⟩] ['a'] (List.replicate 30 1) (some ['s','t','a','l','e'])
+    = generate (fun _ => 0) List.sum [⟨0, 10⟩, ⟨20, 25⟩] ['a'] (List.replicate 30 1) none := by decide
+
+end generate_existing
 
 end KrakenModel.Spec.C02
